@@ -2,7 +2,7 @@
 
    Statements are in model/WfTrace.v (definitions of [wf_trace], driver trees, [drive]), proofs in
    proofs/WfProofs.v.  The trace type is parametric in the representation C of content ids. *)
-From Aqua Require Import Base Trace Handler WfTrace WfProofs.
+From Aqua Require Import Base Trace Handler HandlerCases WfTrace WfCases WfProofs WfOpsProofs.
 Open Scope N_scope.
 Open Scope list_scope.
 
@@ -31,6 +31,14 @@ Proof. exact generations_ok. Qed.
 (* a run = a driver forest followed by the generation updates of the compaction *)
 Theorem C10_full_drive : forall C ceqb, C10_full C ceqb.
 Proof. exact full. Qed.
+
+(* the API call sequence of a forest ([ops_dts], what the harness sends to the real TraceHandler), run with the op
+   semantics of model/HandlerCases.v that the correspondence compares with the implementation, is [drive]; hence a
+   call sequence that runs through leaves a well-formed result *)
+Theorem C10_ops_tie : C10_ops_tie_stmt.
+Proof. exact ops_tie. Qed.
+Theorem C10_wf_run_ops : C10_wf_run_ops_stmt.
+Proof. exact wf_run_ops. Qed.
 
 (* the builder code read from /repo is the code the model mirrors *)
 Theorem C10_source_tie :
@@ -136,4 +144,6 @@ Print Assumptions C10_wf_drive.
 Print Assumptions C10_wf_drive_value_pos.
 Print Assumptions C10_generations.
 Print Assumptions C10_full_drive.
+Print Assumptions C10_ops_tie.
+Print Assumptions C10_wf_run_ops.
 Print Assumptions C10_source_tie.
